@@ -352,6 +352,60 @@ def check(ctx, rep):
                         f"{sorted(set(bad))} can run although no locals were pushed for this element: the caller's variables are popped away" if bad else "",
                         key=f"R18c|{m.qualname}|pop")
     context_symmetry(ctx, rep, "R18c", tales)
+    rep.rule("R18i", "an element's saved state is taken off the scope stack only after the locals defined on it were popped (every path of every "
+             "command handler, with the locals flag set)", floor=1)
+    scope_exit_obligations(ctx, rep, "R18i", interps)
+
+
+
+def scope_exit_obligations(ctx, rep, rule, interps):
+    """An element's saved state is taken off the scope stack only after the locals defined on that element were popped: every
+    path of a command handler that reaches `self.scopeStack.pop()` with the locals flag set has called context.popLocals() first."""
+    prog = ctx.prog
+    n = 0
+    for C in interps:
+        for m in C.methods.values():
+            if not m.name.startswith("cmd"):
+                continue
+
+            def is_scope_pop(node):
+                return isinstance(node, ast.Call) and isinstance(node.func, ast.Attribute) and node.func.attr == "pop" and norm(node.func.value) == "self.scopeStack"
+
+            reach = [m] + [g for g, _, _, _ in __import__("pgv.structure", fromlist=["helper_calls"]).helper_calls(prog, ctx.resolver, m, C, depth=2)
+                           if g.cls is not None and g.cls.module is m.module and not g.name.startswith("cmd")]
+            if not any(is_scope_pop(x) for g in reach for x in ast.walk(g.node)):
+                continue
+            n += 1
+            facts = {"self.localVarsDefined": Const(1)}
+            w = Walker(prog, ctx.resolver, assumptions=facts, sticky=set(facts), merge_loops=True, max_paths=4000,
+                       inline=lambda fn, t, d: d < 3 and t.bound_cls is not None and fn.cls is not None and fn.cls.module is m.module and not fn.name.startswith("cmd")
+                       and fn.name not in ("pushProgram", "popProgram"))
+            bad = None
+            try:
+                for p in w.run(m, C, facts=dict(facts)):
+                    if p.kind == "raise":
+                        continue
+                    popped = False
+                    for e in p.events:
+                        if e.kind == "call" and isinstance(e.node.func, ast.Attribute) and e.node.func.attr == "popLocals":
+                            popped = True
+                        if e.kind == "assign" and e.target == "self.localVarsDefined":
+                            break  # the flag is set on this path itself (the element starts here)
+                        if e.kind == "call" and is_scope_pop(e.node) and not popped:
+                            bad = e.node
+                            break
+                    if bad is not None:
+                        break
+            except Exception:
+                rep.add(rule, f"{m.qualname}: locals popped before the scope is left", False, ctx.where(m), "the paths of the handler could not be enumerated",
+                        key=f"{rule}|{m.qualname}")
+                continue
+            rep.add(rule, f"{m.qualname}: locals popped before the scope is left", bad is None, ctx.where(m, bad) if bad is not None else ctx.where(m),
+                    "" if bad is None else "a path restores the enclosing element's state from the scope stack while the locals defined on this element are still "
+                    "pushed (the flag that says so is overwritten by the restore): they stay in the caller's context after the expansion",
+                    key=f"{rule}|{m.qualname}")
+    if not n:
+        rep.fail(rule, "TemplateInterpreter", detail="no command handler leaves an element's scope (scopeStack.pop() not found)")
 
 
 def context_symmetry(ctx, rep, rule, tales):
